@@ -210,11 +210,23 @@ def run_unit(tpl, scratch, tier, keep):
     open(vgen, 'w').write(vtext)
 
     rl = ['--rlimit', '30' if tier == 'quick' else '60'] + unit.verus_args
-    with cf.ThreadPoolExecutor(2) as ex:
+    seed = int(os.environ.get('VERIF_SEED', '0') or 0)
+    with cf.ThreadPoolExecutor(3) as ex:
         f_main = ex.submit(run_verus, gen, rl, 900)
         f_vac = ex.submit(run_verus, vgen, rl, 900)
+        # thorough tier: a second pass under a different solver seed exposes unstable queries
+        f_alt = ex.submit(run_verus, gen, rl + ['--smt-option', 'smt.random_seed=%d' % (seed % 1000 + 17)], 900) if tier == 'thorough' else None
         r = f_main.result()
         rv = f_vac.result()
+        r_alt = f_alt.result() if f_alt else None
+    if r_alt is not None:
+        ok_main = bool(r['results'] and r['results'].get('success'))
+        ok_alt = bool(r_alt['results'] and r_alt['results'].get('success'))
+        res['second_seed'] = {'success': ok_alt, 'wall': round(r_alt['wall'], 2)}
+        if ok_main != ok_alt:
+            res['notes'].append('UNSTABLE: verdict differs between solver seeds (main=%s, alt=%s)' % (ok_main, ok_alt))
+            # informational only: the deciding run is the default-seed run (deterministic for a given text);
+            # the note is written to evidence.coverage.units[].notes / coverage.unstable
     res['cmd'] = r['cmd'].replace(scratch, '$SCRATCH')
     res['verus_wall'] = round(r['wall'], 2)
     if r['timeout']:
@@ -505,7 +517,8 @@ def main():
             'rewrites': {k: {'hits': v, 'meaning': rewrite.RULE_DOC.get(k, '')} for k, v in sorted(rewrites.items())},
             'samples': samples[:12] or ['(none)'],
             'units': [{'unit': r['unit'], 'status': r['status'], 'wall_s': r.get('wall'), 'verified_functions': r.get('verified'),
-                       'vacuity': r.get('vacuity'), 'generated': r.get('generated')} for r in results],
+                       'vacuity': r.get('vacuity'), 'generated': r.get('generated'), 'notes': r.get('notes'), 'second_seed': r.get('second_seed')} for r in results],
+            'unstable': [r['unit'] for r in results if any('UNSTABLE' in n for n in (r.get('notes') or []))],
             'undecided': undecided,
             'solver_seconds': round(sum(r.get('smt_ms', 0) for r in results) / 1000.0 + sum(r.get('solver_s', 0) for r in results), 3),
             'explanation': 'obligation = one labelled contract clause ([[L: ..]]) woven into code cut from /repo on this run, '
